@@ -331,18 +331,18 @@ def names_of(prog):
     return set(rec)
 
 
-RESERVED_IDS = {"*": 0, "__all__": 1000, "__class__": 2000, "__future__": 3000}
+RESERVED_IDS = {"": 0, "*": 500, "__all__": 1000, "__class__": 2000, "__future__": 3000}
 
 
 def name_ids(prog, extra=()):
     """ids monotone in Python string order; the four reserved spellings have fixed ids (PySyntax.v), every
     other name gets an id in the gap where it sorts"""
     acc = set(extra) | names_of(prog)
-    acc -= set(RESERVED)
+    acc -= set(RESERVED_IDS)
     ids = dict(RESERVED_IDS)
     bounds = sorted(RESERVED_IDS.items(), key=lambda kv: kv[1])
     for n in sorted(acc):
-        assert n > "*", "name %r sorts before every reserved spelling" % n
+        assert n > "*", "name %r sorts before the star" % n
     for k, (rn, rid) in enumerate(bounds):
         hi = bounds[k + 1][0] if k + 1 < len(bounds) else None
         grp = sorted(n for n in acc if n > rn and (hi is None or n < hi))
@@ -488,18 +488,20 @@ class Render:
         return ", ".join(out), g
 
     # --- statements: append lines, return gallina
+    prefix = ""
+
     def emit(self, ind, text):
-        self.lines.append("    " * ind + text)
+        self.lines.append("    " * ind + self.prefix + text)
         return len(self.lines)
 
     def block(self, body, ind):
         if not body:
             return "[]"
-        return self.L([self.stmt(s, ind) for s in body])
+        return self.L([g for g in (self.stmt(s, ind) for s in body) if g is not None])
 
     def suite(self, body, ind, extra=None):
         """a non-empty indented suite; [extra] = a trailing line that is not part of the term"""
-        g = self.L([self.stmt(s, ind) for s in body])
+        g = self.L([g for g in (self.stmt(s, ind) for s in body) if g is not None])
         if extra:
             self.emit(ind, extra)
         return g
@@ -521,6 +523,12 @@ class Render:
 
     def stmt1(self, s, ind):
         t = s[0]
+        if t == "blank":                      # layout only: no statement in the term
+            self.lines.append("")
+            return None
+        if t == "comment":
+            self.emit(ind, "# " + s[1])
+            return None
         if t == "expr":
             p, g = self.expr(s[1])
             return "(SExpr %d %s)" % (self.emit(ind, p), g)
@@ -540,7 +548,10 @@ class Render:
             ln = self.emit(ind, "import " + ", ".join(".".join(d) + (" as " + a if a else "") for d, a in s[1]))
             return "(SImport %d %s)" % (ln, self.L(["(%s, %s)" % (self.Ns(d), self.O(self.N(a) if a else None)) for d, a in s[1]]))
         if t == "from":
-            ln = self.emit(ind, "from %s import %s" % (".".join(s[1]), ", ".join(n + (" as " + a if a else "") for n, a in s[2])))
+            lvl = 0
+            while lvl < len(s[1]) and s[1][lvl] == "":
+                lvl += 1
+            ln = self.emit(ind, "from %s import %s" % ("." * lvl + ".".join(s[1][lvl:]), ", ".join(n + (" as " + a if a else "") for n, a in s[2])))
             return "(SImportFrom %d %s %s)" % (ln, self.Ns(s[1]), self.L(["(%s, %s)" % (self.N(n), self.O(self.N(a) if a else None)) for n, a in s[2]]))
         if t == "def":
             _, nm, ds, P, ret, body = s
@@ -618,14 +629,14 @@ class Render:
             ln = self.emit(ind, '"""doc ' + " ".join("{%s}" % b for b in braces))
             exs = []
             for x in examples:
-                if x[0] == "expr":
-                    p, g = self.expr(x[1])
-                    exs.append("(SExpr %d %s)" % (self.emit(ind, ">>> " + p), g))
-                else:
-                    ts = [self.target(y) for y in x[1]]
-                    p, g = self.expr(x[2])
-                    l2 = self.emit(ind, ">>> " + " = ".join([tp for tp, _ in ts] + [p]))
-                    exs.append("(SAssign %d %s %s)" % (l2, self.L([c for _, c in ts]), g))
+                if x[0] == "bad":             # an example that does not compile: pyflyby skips it (no statement)
+                    self.emit(ind, ">>> " + x[1])
+                    continue
+                self.prefix = ">>> "          # a one-line statement: expr, assign, import, from
+                try:
+                    exs.append(self.stmt1(x, ind))
+                finally:
+                    self.prefix = ""
             self.emit(ind, '"""')
             return "(SDoc %d %s %s)" % (ln, self.L(exs), self.Ns(braces))
         raise ValueError(t)
